@@ -503,6 +503,20 @@ func (in *interp) instr(st *istate, ins ssa.Instruction) {
 					}
 				}
 			}
+			// an element, at a constant index, of a local array all of whose slots
+			// are stored once with constants (a lookup table written as a literal)
+			if ia, ok := x.X.(*ssa.IndexAddr); ok {
+				if al, ok := ia.X.(*ssa.Alloc); ok {
+					if k := in.get(st, ia.Index); k.k == aConst && k.c.Kind() == constant.Int {
+						if n, exact := constant.Int64Val(k.c); exact {
+							if cv, ok := constArraySlot(al, n); ok {
+								st.env[x] = constv(cv, x.Type())
+								return
+							}
+						}
+					}
+				}
+			}
 			if v.k == aNil {
 				st.env[x] = symv("deref(nil)!", x.Type())
 				return
@@ -1073,4 +1087,57 @@ func constGlobalMap(p *Prog, gl *ssa.Global) (map[string]constant.Value, bool) {
 	}
 	constGlobalMaps[gl] = tbl
 	return tbl, true
+}
+
+// constArraySlot: al is a local array every slot of which is stored exactly
+// once, with a constant, through a constant index, and which is otherwise only
+// read; the constant in slot n.
+func constArraySlot(al *ssa.Alloc, n int64) (constant.Value, bool) {
+	at, ok := deref(al.Type()).Underlying().(*types.Array)
+	if !ok || n < 0 || n >= at.Len() {
+		return nil, false
+	}
+	var found constant.Value
+	filled := map[int64]bool{}
+	for _, ref := range referrers(al) {
+		switch y := ref.(type) {
+		case *ssa.IndexAddr:
+			k, isConst := constInt(y.Index)
+			for _, r2 := range referrers(y) {
+				switch z := r2.(type) {
+				case *ssa.Store:
+					c, isC := z.Val.(*ssa.Const)
+					if !isConst || !isC || c.Value == nil || z.Addr != ssa.Value(y) || filled[k] {
+						return nil, false
+					}
+					filled[k] = true
+					if k == n {
+						found = c.Value
+					}
+				case *ssa.UnOp, *ssa.DebugRef:
+				default:
+					return nil, false
+				}
+			}
+		case *ssa.UnOp, *ssa.DebugRef:
+		case *ssa.Slice:
+			for _, r2 := range referrers(y) {
+				switch z := r2.(type) {
+				case *ssa.DebugRef:
+				case *ssa.Call:
+					if b := builtinName(z.Common()); b != "len" && b != "cap" {
+						return nil, false
+					}
+				default:
+					return nil, false
+				}
+			}
+		default:
+			return nil, false
+		}
+	}
+	if int64(len(filled)) != at.Len() || found == nil {
+		return nil, false
+	}
+	return found, true
 }
